@@ -26,7 +26,7 @@ EXPLANATION = (
     "cached canvas (otherwise the wrapper's attributes are baked into the child and survive a later set_attr_map); (6) CUTATTR: the space replacing a cut wide character keeps the cut character's attribute."
     ' Added after seed round 3: (9) FOCUS-FWD over all widget modules - a focus map further down is applied exactly when the widget is in focus because every container / decoration passes the flag on; (10) ACCUM on the rle walkers that cut attribute runs.'
     ' Round 4: (11) LOOPFRESH and (12) PAIRLEN on apply_text_layout / apply_target_encoding (attribute and charset run lengths are the length of the piece just appended); (13) no display code indexes a palette entry with a constant position.'
-    ' Round-4 triage: (14) NONE-SENTINEL on attribute maps; (15) _tagmarkup_recurse reads the last run only when both run lists are non-empty; (16) the 88-colour fallback helper of register_palette_entry examines every comma-separated setting of a description.'
+    ' Round-4 triage: (14) NONE-SENTINEL on attribute maps; (15) _tagmarkup_recurse reads the last run only when both run lists are non-empty; (16) the 88-colour fallback helper of register_palette_entry examines every comma-separated setting of a description. Round 5: (17) the rendition model of draw_screen (shared with C04.13).'
 )
 NOT_DECIDED = "Run-length alignment of attributes through layout and encoding, composition order of nested maps as a value statement, the SGR text produced for every AttrSpec and its decoding."
 ASSUMPTIONS = []
@@ -363,13 +363,17 @@ def run(ctx: Ctx):
     from ..rules import pairlen
 
     r12 = pairlen.run_pairlen(ctx.p, "C17.12", ["urwid.canvas.apply_text_layout", "urwid.util.apply_target_encoding"], floor=8)
-    return [rule_palette_order(ctx), rule_palette_notify(ctx), rule_palette_cache(ctx), rule_palette_total(ctx), rule_attrmap(ctx), r6, r7, r8, r9, r10, r11, r12, rule_palette_depth_index(ctx), _sentinel(ctx), rule_markup_index_guard(ctx), rule_desc_tokens(ctx)]
+    from . import c04 as _c04
+
+    r17 = _c04.rule_rendition_model(ctx, "C17.17")
+    return [r17, rule_palette_order(ctx), rule_palette_notify(ctx), rule_palette_cache(ctx), rule_palette_total(ctx), rule_attrmap(ctx), r6, r7, r8, r9, r10, r11, r12, rule_palette_depth_index(ctx), _sentinel(ctx), rule_markup_index_guard(ctx), rule_desc_tokens(ctx)]
 
 
 _CM = "urwid/display/common.py"
 _RW = "urwid/display/_raw_display_base.py"
 _HT = "urwid/display/html_fragment.py"
 MUTANTS = [
+    Mut("initial-rendition-only-on-full-repaint", _RW, "urwid.display._raw_display_base.Screen.draw_screen", "        output: list[str] = [escape.HIDE_CURSOR, attr_to_escape(last_attributes)]\n", "        output: list[str] = [escape.HIDE_CURSOR]\n        if not self.screen_buf:\n            output.append(attr_to_escape(last_attributes))\n", "PAIR|display._raw_display_base.Screen.draw_screen|rendition model"),
     Mut("large-h-first-setting-only", _CM, "BaseScreen.register_palette_entry", "            for part in desc.split(\",\"):\n                part = part.strip()  # noqa: PLW2901\n                if part.startswith(\"h\") and part[1:].isdigit() and int(part[1:], 10) > 15:\n                    return True\n            return False\n", "            part = desc.split(\",\", 1)[0].strip()\n            return part.startswith(\"h\") and part[1:].isdigit() and int(part[1:], 10) > 15\n", "SIB|display.common.BaseScreen.register_palette_entry.<locals>.large_h"),
     Mut("attrwrap-focus-attr-none-mapped", "urwid/widget/attr_wrap.py", "AttrWrap.set_focus_attr", "self.set_focus_map(None if focus_attr is None else {None: focus_attr})", "self.set_focus_map({None: focus_attr})", "GUARD|widget.attr_wrap.AttrWrap.set_focus_attr"),
     Mut("markup-merge-reads-empty-run-list", "urwid/util.py", "_tagmarkup_recurse", "            if ral and al:", "            if ral:", "GUARD|util._tagmarkup_recurse"),
